@@ -127,7 +127,32 @@ type ContractDB struct {
 	NonNil    map[string]bool // package-level variables initialised once to a non-nil value
 	ValInvs   []*ValInv
 	UFuns     map[string]*UFun
+	Rules     []*SiteRule
+	MapInvs   []*MapInv
 	GhostAlias map[string]string // type name → owner whose ghost fields it shares (ghost like Stream: Reader, Buffer)
+}
+
+// SiteRule: a site obligation quantified over call targets and over the functions of a scope:
+// `rule <label> [props] in <key> <key> ...` followed by `before call <t1> <t2> ...` and assert/assume lines.
+type SiteRule struct {
+	Label   string
+	PkgPath string
+	Props   []string
+	Scope   []string
+	Targets []string
+	Assert  []*Clause
+	Assume  []*Clause
+}
+
+// MapInv: invariant of the values stored in the map held by one named local variable of a function
+// (and seen by its closures under the same name): asserted at every update through that variable,
+// assumed at every lookup/range through it. The variable must not be aliased (checked syntactically).
+type MapInv struct {
+	PkgPath string
+	Func    string
+	Var     string
+	Clause  *Clause
+	Props   []string
 }
 
 // UFun: uninterpreted specification function (a mathematical function of its arguments, nothing else known).
@@ -221,6 +246,7 @@ func (db *ContractDB) loadContractFile(path string, pkgPath string, src []byte) 
 	var curM *Monitor
 	var curL *Lemma
 	var curSite *SiteSpec
+	var curRule *SiteRule
 	mkClause := func(text string, line int) (*Clause, error) {
 		props, rest := splitProps(strings.TrimSpace(text))
 		n, err := parseSpec(rest)
@@ -237,7 +263,7 @@ func (db *ContractDB) loadContractFile(path string, pkgPath string, src []byte) 
 		}
 		switch word {
 		case "func", "extern", "region":
-			curM, curL, curSite = nil, nil, nil
+			curM, curL, curSite, curRule = nil, nil, nil, nil
 			fc := &FuncContract{PkgPath: pkgPath, File: path, Line: rl.line, LoopInv: map[int][]*Clause{}, LoopDec: map[int]*Clause{}}
 			key := rest
 			if word == "extern" {
@@ -349,6 +375,43 @@ func (db *ContractDB) loadContractFile(path string, pkgPath string, src []byte) 
 			}
 			vi := &ValInv{PkgPath: pkgPath, TypeName: strings.TrimPrefix(f[0], "*"), Ptr: strings.HasPrefix(f[0], "*"), Clause: c, Props: props}
 			db.ValInvs = append(db.ValInvs, vi)
+		case "rule":
+			// rule <label> [C07] in Key1 Key2 ...
+			curF, curM, curL, curSite = nil, nil, nil, nil
+			f := strings.Fields(rest)
+			if len(f) < 3 {
+				return fmt.Errorf("%s:%d: bad rule", path, rl.line)
+			}
+			r := &SiteRule{Label: f[0], PkgPath: pkgPath}
+			k := 1
+			if ps, _ := splitProps(f[1] + " "); ps != nil {
+				r.Props = ps
+				k = 2
+			}
+			if f[k] != "in" {
+				return fmt.Errorf("%s:%d: rule needs `in <scope>`", path, rl.line)
+			}
+			r.Scope = f[k+1:]
+			db.Rules = append(db.Rules, r)
+			curRule = r
+		case "targets":
+			if curRule == nil {
+				return fmt.Errorf("%s:%d: targets outside rule", path, rl.line)
+			}
+			curRule.Targets = append(curRule.Targets, strings.Fields(rest)...)
+		case "mapinv":
+			// mapinv [props] Func.var <expr over k, v>
+			props, r2 := splitProps(rest)
+			f := strings.SplitN(r2, " ", 2)
+			i := strings.LastIndex(f[0], ".")
+			if len(f) != 2 || i < 0 {
+				return fmt.Errorf("%s:%d: bad mapinv", path, rl.line)
+			}
+			c, err := mkClause(f[1], rl.line)
+			if err != nil {
+				return err
+			}
+			db.MapInvs = append(db.MapInvs, &MapInv{PkgPath: pkgPath, Func: f[0][:i], Var: f[0][i+1:], Clause: c, Props: props})
 		case "ufun":
 			// ufun name(a bytes, off Z, n Z) uint32
 			j := strings.LastIndex(rest, ")")
@@ -510,7 +573,7 @@ func (db *ContractDB) loadContractFile(path string, pkgPath string, src []byte) 
 			}
 			curM.GuardHeaps = append(curM.GuardHeaps, strings.Fields(strings.ReplaceAll(rest, ",", " "))...)
 		case "immutable":
-			if m := regexp.MustCompile(`^\(\*(\w+)\)\.([\w, ]+?)(?:\s+writers\s+(.*))?$`).FindStringSubmatch(rest); m != nil && curM == nil {
+			if m := regexp.MustCompile(`^\(\*(\w+)\)\.([\w, ]+?)(?:\s+writers\s+(.*))?$`).FindStringSubmatch(rest); m != nil {
 				d := &ImmutableDecl{PkgPath: pkgPath, TypeName: m[1], File: path, Line: rl.line}
 				d.Fields = strings.Fields(strings.ReplaceAll(m[2], ",", " "))
 				d.Writers = strings.Fields(strings.ReplaceAll(m[3], ",", " "))
@@ -553,6 +616,18 @@ func (db *ContractDB) loadContractFile(path string, pkgPath string, src []byte) 
 			}
 			curSite.Ghost = append(curSite.Ghost, rest)
 		case "assert", "assume":
+			if curSite == nil && curRule != nil {
+				c, err := mkClause(rest, rl.line)
+				if err != nil {
+					return err
+				}
+				if word == "assert" {
+					curRule.Assert = append(curRule.Assert, c)
+				} else {
+					curRule.Assume = append(curRule.Assume, c)
+				}
+				break
+			}
 			if curSite == nil {
 				return fmt.Errorf("%s:%d: %s outside site", path, rl.line, word)
 			}
